@@ -1043,7 +1043,7 @@ def _file(pkg, text, mod, all_pkgs):
 
 
 # constructs the random part avoids while the named finding is open (probe + avoid, DESIGN 3.5)
-AVOIDABLE = {"retload": "C01-retload-moved-past-call"}
+AVOIDABLE = {"retload": "C01-retload-moved-past-call", "rangearr": "C01-range-array-value-not-copied"}
 
 
 def generate(seed, idx, nunits=25, only=None, kinds=None, npk=None, term=None, avoid=()):
